@@ -90,6 +90,10 @@ FamC04(dummy) ==
   IN  {Run(ProgC04(kd, pr, h), <<>>, {}) : kd \in Kinds8, pr \in Profiles(nmax, dmax) \cup WideC04 \cup BareC04, h \in BOOLEAN}
       \cup {Run(ProgC04c(Kind(FALSE, t, sp), "opt", pr, h), <<>>, {}) : t \in BOOLEAN, sp \in BOOLEAN, h \in BOOLEAN,
                pr \in {<<2>>, <<1, 2>>, <<3, 1, 2>>, <<1, 2, 2>>, <<2, 1, 3, 1, 2>>}}
+      \* every branch has a `let` name and the handler's parameters are spelled like those names, in another order (`hperm`: read
+      \* by the generator only): the handler is called positionally, what its parameters are called is the user's business
+      \cup {Run([ProgC04(kd, pr, TRUE) EXCEPT !.branches = [i \in 1 .. Len(pr) |-> [@[i] EXCEPT !.name = IF i % 2 = 0 THEN "letmut" ELSE "let"]]] @@ [hperm |-> TRUE], <<>>, {}) :
+               kd \in Kinds8, pr \in {<<1, 1>>, <<1, 2>>, <<2, 1, 2>>, <<1, 3, 2>>}}
       \* a custom joiner between the branches and the step tuple (steps with one active branch must not go through it)
       \cup {Run([ProgC04(kd, pr, h) EXCEPT !.opts = [joiner |-> "eager", lazy |-> "default", transpose |-> "default", path |-> "default"]], <<>>, {}) :
                kd \in Kinds8, h \in BOOLEAN, pr \in {<<2>>, <<2, 1>>, <<1, 3, 2>>, <<2, 2, 1>>}}
